@@ -75,6 +75,9 @@ func (rt *Transfer) touchUpDirs(fileList []*File) error {
 		if rt.Opts.DryRun {
 			continue
 		}
+		if idx > 0 && f.Name == fileList[idx-1].Name {
+			continue // GenerateFiles did not create this one
+		}
 		if mode&syscall.S_IWUSR > 0 {
 			continue // directory is writeable, no touchup needed
 		}
@@ -127,6 +130,12 @@ func (rt *Transfer) setPerms(f *File, mode fs.FileMode) error {
 
 	perm := mode & os.ModePerm
 	mode = mode & rsync.S_IFMT
+	if st.Mode()&os.ModeSymlink != 0 && mode != rsync.S_IFLNK {
+		// Chtimes and Chmod follow a symbolic link, possibly out of the
+		// destination: never apply the attributes of another kind of entry
+		// through a link that is in its place.
+		return fmt.Errorf("%s: is a symbolic link, not touching its target", f.Name)
+	}
 	if rt.Opts.PreserveTimes &&
 		mode != rsync.S_IFLNK &&
 		!modTimeEqual(st.ModTime(), f.ModTime) {
